@@ -104,6 +104,12 @@ def full_spec(
     reactions: list[list] = []
     surrogates: list[list] = []
     n_rxn = 0
+    def args_for(lo: int, hi: int) -> list[str]:
+        # bias towards chaining: half of the time force one argument that is itself computed
+        nonbase = [a for a in avail if a not in base]
+        must = nonbase if nonbase and draw(st.booleans()) else None
+        return draw(pick_args(avail, lo, hi, must=must))
+
     for _ in range(n_nodes):
         kind = draw(st.sampled_from(kinds))
         if pending_ia_vars and draw(st.booleans()):
@@ -111,13 +117,13 @@ def full_spec(
         if kind == "derived":
             name = f"d{counters['d']}"
             counters["d"] += 1
-            args = draw(pick_args(avail, 0, 3))
+            args = args_for(0, 3)
             decls.append(["derived", name, {"fn": draw(fn_desc(len(args))), "args": args}])
             avail.append(name)
         elif kind == "reaction":
             name = f"r{counters['r']}"
             counters["r"] += 1
-            args = draw(pick_args(avail, 0, 3))
+            args = args_for(0, 3)
             d = ["reaction", name, {"fn": draw(fn_desc(len(args))), "args": args, "stoich": None}]
             decls.append(d)
             reactions.append(d)
@@ -126,7 +132,7 @@ def full_spec(
         elif kind == "surrogate":
             name = f"s{counters['s']}"
             counters["s"] += 1
-            args = draw(pick_args(avail, 1, 3))
+            args = args_for(1, 3)
             k = draw(st.integers(1, 3))
             outs = [f"{name}o{j}" for j in range(k)]
             parts = [draw(fn_desc(len(args))) for _ in range(k)]
@@ -137,12 +143,12 @@ def full_spec(
         elif kind == "ia_par":
             name = f"q{counters['q']}"
             counters["q"] += 1
-            args = draw(pick_args(avail, 0, 3))
+            args = args_for(0, 3)
             decls.append(["parameter", name, {"ia": {"fn": draw(fn_desc(len(args))), "args": args}}])
             avail.append(name)
         elif kind == "ia_var":
             name = pending_ia_vars.pop(0)
-            args = draw(pick_args(avail, 0, 3))
+            args = args_for(0, 3)
             var_decl[name] = ["variable", name, {"ia": {"fn": draw(fn_desc(len(args))), "args": args}}]
             avail.append(name)
     # leftover ia vars become assignments over what exists
